@@ -176,18 +176,16 @@ func (g *gen) run() {
 			g.unbondOp(m)
 		case k < 62:
 			g.randomConfirm(m)
-		case k < 67:
-			id := g.nextBatch[m]
-			if r.Chance(10) && id > 1 {
-				id-- // id in use
-			} else {
-				g.nextBatch[m]++
-			}
-			g.do(Op{K: "addbatch", M: m, N: id})
+		case k < 66:
+			g.do(Op{K: "addbatch", M: m})
 		case k < 69:
-			if g.nextBatch[m] > 1 {
-				g.do(Op{K: "delbatch", M: m, N: 1 + int64(r.Intn(int(g.nextBatch[m]-1)))})
+			// the oldest or a random live batch is executed on the external chain
+			if bs := g.view(m).Batches; len(bs) > 0 {
+				g.do(Op{K: "execbatch", M: m, N: bs[r.Intn(len(bs))].N})
 			}
+		case k < 70:
+			g.do(Op{K: "exportimport", M: m})
+			g.run_.rep.Count("genesis-export-import")
 		case k < 71:
 			g.do(Op{K: "params", M: m, P: g.pickParams(false)})
 		case k < 75 && g.calls:
